@@ -8,7 +8,7 @@ from ..core import FAILED
 
 DECIDING = ["O1:adjoint-identity", "O2:dual-dual", "O3:unital<=>dual-TP", "O4:complementary-entries", "O4:complementary-trace",
             "O4:complementary-spectrum", "O4:complementary-rejects"]
-RULE = ("cases = random maps (CP and non-CP, d_in, d_out in 1..4, real/complex) as flat Kraus / (A,B) pairs / Choi matrix; complementary: "
+RULE = ("cases = random maps (CP and non-CP, d_in, d_out in 1..4, real/complex) as flat Kraus / [[K1],..] / [[K1,..,Kr]] / (A,B) pairs / Choi matrix; complementary: "
         "Stinespring-generated square channels d in 2..4, rank 1..6; the returned dual is applied by the *model* (explicit Kraus loop or "
         "Choi contraction), never by the library's apply_channel; signature (monitor, form, d_in, d_out, class), non-trivial when d_in != d_out, "
         "complex or non-CP")
